@@ -296,8 +296,9 @@ Definition se_ele_err_map : list (Z * string) := [(1, "6"); (2, "7")]%Z%string.
 Definition get_st_errors (h : errh) (n : st_node) : result (list str) :=
   let c5 := if 0 <? st_child_err_count h n then [l "5"] else [] in
   do more <- element_codes (fun e msg =>
-      if contains (l "ST") msg then do c <- dict_get st_ele_err_map (en_pos e); Ok [c]
-      else if contains (l "SE") msg then do c <- dict_get se_ele_err_map (en_pos e); Ok [c]
+      (* fix c6c17ae: positions without a set-level code contribute nothing *)
+      if contains (l "ST") msg then (if dict_has st_ele_err_map (en_pos e) then do c <- dict_get st_ele_err_map (en_pos e); Ok [c] else Ok [])
+      else if contains (l "SE") msg then (if dict_has se_ele_err_map (en_pos e) then do c <- dict_get se_ele_err_map (en_pos e); Ok [c] else Ok [])
       else Ok []) (ele_nodes h (tn_elements n));
   Ok (sorted_set (codes2 (tn_errors n) ++ c5 ++ more)).
 
